@@ -193,6 +193,7 @@ func P(site string) {
 //	op=mode&v=N[&rate=R&seed=S]
 //	op=hold&site=X[&skip=K&max=M]   arm a gate
 //	op=release&site=X               release everything parked at X and disarm
+//	op=step&site=X                  release everything parked at X, stay armed
 //	op=wait&site=X&n=N&ms=T         block until N goroutines are parked at X
 //	op=hits                         JSON of hit counters and parked counts
 //	op=reset                        release and forget all gates, zero counters
@@ -233,6 +234,17 @@ func Control(w http.ResponseWriter, r *http.Request) {
 		if g := gates[q.Get("site")]; g != nil && g.hold {
 			g.hold = false
 			close(g.ch)
+		}
+		mu.Unlock()
+		w.Write([]byte("ok"))
+	case "step":
+		// let the goroutines parked at the gate go on; the gate stays armed for
+		// the next arrivals
+		mu.Lock()
+		if g := gates[q.Get("site")]; g != nil && g.hold {
+			old := g.ch
+			g.ch = make(chan struct{})
+			close(old)
 		}
 		mu.Unlock()
 		w.Write([]byte("ok"))
